@@ -266,6 +266,12 @@ func (p *Proxy) handleLoop(conn net.Conn) {
 			log.Debugf("martian: closing connection: %v", conn.RemoteAddr())
 			return
 		}
+		if s.Hijacked() {
+			// The hijacker owns the connection and has returned: stop reading
+			// from it and close it (see Session.Hijack).
+			log.Debugf("martian: closing hijacked connection: %v", conn.RemoteAddr())
+			return
+		}
 	}
 }
 
